@@ -30,6 +30,7 @@ func init() {
 			{Name: "module-table-unlocked-search", File: "bfe_modules/mod_block/product_rule_table.go", Old: "	t.lock.RLock()\n	productRules := t.productRules\n	t.lock.RUnlock()\n", New: "	productRules := t.productRules\n", Expect: "guarded-by"},
 			{Name: "module-table-split-update", File: "bfe_modules/mod_block/product_rule_table.go", Old: "	t.lock.Lock()\n	t.version = conf.Version\n	t.productRules = conf.Config\n	t.lock.Unlock()", New: "	t.lock.Lock()\n	t.version = conf.Version\n	t.lock.Unlock()\n	t.lock.Lock()\n	t.productRules = conf.Config\n	t.lock.Unlock()", Expect: "update-atomic"},
 			{Name: "transports-unlocked", File: "bfe_server/reverseproxy.go", Old: "	p.tsMu.RLock()\n	transport, ok := p.transports[cluster.Name]\n	p.tsMu.RUnlock()", New: "	transport, ok := p.transports[cluster.Name]", Expect: "guarded-by"},
+			{Name: "reload-mutates-snapshot-alias", File: "bfe_balance/bal_table.go", Old: "	t.lock.Lock()\n\n	var fails []string\n	bmNew := make(BalMap)\n	for clusterName, gslbConf := range *gslbConfs.Clusters {\n		bal, ok := t.balTable[clusterName]\n		if !ok {\n			// new one balance\n			bal = bal_gslb.NewBalanceGslb(clusterName)\n		} else {\n			delete(t.balTable, clusterName)\n		}", New: "	t.lock.RLock()\n	bmOld := t.balTable\n	t.lock.RUnlock()\n	t.lock.Lock()\n	t.lock.Unlock()\n\n	var fails []string\n	bmNew := make(BalMap)\n	for clusterName, gslbConf := range *gslbConfs.Clusters {\n		bal, ok := bmOld[clusterName]\n		if !ok {\n			// new one balance\n			bal = bal_gslb.NewBalanceGslb(clusterName)\n		} else {\n			delete(bmOld, clusterName)\n		}\n		t.lock.Lock()", Expect: "guarded-mutation"},
 			{Name: "swap-unchecked-conf", File: "bfe_server/bfe_confdata_load.go", Old: "	srv.confLock.Lock()\n	srv.ServerConf = newServerConf\n	srv.confLock.Unlock()\n", New: "	srv.confLock.Lock()\n	srv.ServerConf = &bfe_route.ServerDataConf{HostTable: newServerConf.HostTable}\n	srv.ServerConf.ClusterTable = newServerConf.ClusterTable\n	srv.confLock.Unlock()\n", Expect: "swap-value"},
 		},
 	})
@@ -57,6 +58,13 @@ func runC15(c *core.Ctx) {
 	specs := []guardSpec{
 		{confFld, srv + ".BfeServer.confLock", map[string]bool{srv + ".BfeServer.InitDataLoad": true}},
 		{trFld, srv + ".ReverseProxy.tsMu", map[string]bool{srv + ".NewReverseProxy": true}},
+	}
+	for _, fname := range []string{"balTable", "versions"} {
+		if fv, ok := c.P.Obj("bfe_balance", "BalTable."+fname).(*types.Var); ok {
+			specs = append(specs, guardSpec{fv, "bfe_balance.BalTable.lock", map[string]bool{"bfe_balance.NewBalTable": true, "bfe_balance.BalTable.gslbInit": true, "bfe_balance.BalTable.backendInit": true}})
+		} else {
+			c.Missing("bfe_balance.BalTable." + fname)
+		}
 	}
 	// start-up exemption is valid only while InitDataLoad is called from StartUp alone
 	{
@@ -190,6 +198,83 @@ func runC15(c *core.Ctx) {
 		}
 	}
 	c.Min("guarded-by", 60)
+	// ---- (a') no in-place mutation of a guarded container through an escaped reference -----------
+	// Readers copy the map/slice reference under the read lock and use it after unlocking
+	// (snapshot idiom); that is only race-free if a published container is never mutated in
+	// place without the write lock - also not through a local alias taken earlier.
+	nAlias := 0
+	for _, sp := range specs {
+		switch sp.fld.Type().Underlying().(type) {
+		case *types.Map, *types.Slice:
+		default:
+			continue
+		}
+		for _, fn := range all {
+			k := core.FuncKey(fn)
+			root := k
+			if i := strings.Index(k, "$"); i >= 0 {
+				root = k[:i]
+			}
+			if sp.exempt[root] {
+				continue
+			}
+			core.Instrs(fn, func(in ssa.Instruction) {
+				fa, ok := in.(*ssa.FieldAddr)
+				if !ok || core.FieldObj(fa.X, fa.Field) != sp.fld || fa.Referrers() == nil {
+					return
+				}
+				for _, r := range *fa.Referrers() {
+					ld, isLoad := r.(*ssa.UnOp)
+					if !isLoad || ld.Referrers() == nil {
+						continue
+					}
+					// follow the loaded reference through phis
+					seen := map[ssa.Value]bool{}
+					var visit func(v ssa.Value)
+					visit = func(v ssa.Value) {
+						if seen[v] || v.Referrers() == nil {
+							return
+						}
+						seen[v] = true
+						for _, u := range *v.Referrers() {
+							mut := ""
+							switch x := u.(type) {
+							case *ssa.Phi:
+								visit(x)
+							case *ssa.MapUpdate:
+								if x.Map == v {
+									mut = "map store"
+								}
+							case *ssa.Call:
+								if b, isB := x.Call.Value.(*ssa.Builtin); isB && b.Name() == "delete" && len(x.Call.Args) > 0 && x.Call.Args[0] == v {
+									mut = "delete"
+								}
+							case *ssa.IndexAddr:
+								if x.X == v && x.Referrers() != nil {
+									for _, rr := range *x.Referrers() {
+										if st, isSt := rr.(*ssa.Store); isSt && st.Addr == x {
+											mut = "element store"
+										}
+									}
+								}
+							}
+							if mut == "" {
+								continue
+							}
+							nAlias++
+							ord[k+sp.fld.Name()+"alias"]++
+							c.Check("guarded-mutation", fmt.Sprintf("%s:%s:%s#%d", k, sp.fld.Name(), strings.ReplaceAll(mut, " ", "-"), ord[k+sp.fld.Name()+"alias"]), u.Pos(), pl.HeldT(u, sp.lock, "W"),
+								fmt.Sprintf("%s on the container read from %s happens without %s held in write mode (held: %v): readers use references to this container after releasing the read lock, so mutating it in place - also through a local alias taken under the lock - races with them", mut, sp.fld.Name(), sp.lock, pl.AllHeld(u)))
+						}
+					}
+					visit(ld)
+				}
+			})
+		}
+	}
+	if nAlias < 1 {
+		c.Check("guarded-mutation", "sites", token.NoPos, false, "no in-place mutation of a guarded container found at all (BalTableReload deletes carried-over balancers from the old table under the lock)")
+	}
 	// ---- (b) single snapshot --------------------------------------------------------------------------
 	allowedGetters := map[string]string{
 		srv + ".conn.readRequest":          "request construction: takes the snapshot stored in the request",
